@@ -91,6 +91,9 @@ bool vf_viol(const char *prop, const char *key, const char *fmt, ...)
 extern int vf_nviol;
 /* violation already recorded for the current case? */
 bool vf_case_failed(void);
+/* true iff a second thread can take (and release) the pthread mutex at m right now; m == NULL: true. A call that returned with the
+ * container lock held goes unnoticed by its own thread (recursive mutex) and blocks every other thread for ever. */
+bool vf_lock_probe(void *m);
 void vf_abort_case(void);   /* record CRASH for the current case and exit(42): the driver restarts after it */
 
 /* ---- CPU watchdog (ITIMER_VIRTUAL) --------------------------------------- */
